@@ -159,6 +159,38 @@ def hv(binary, args, timeout=900):
     return json.loads(last[-1]) if last else {}
 
 
+def hv_resumable(binary, args, runs, timeout=900):
+    """Full-stack drivers die with the process when the code under test panics (run_internet installs a hook
+    that exits): the panic is recorded in the trace, and the driver is restarted after the crashed run."""
+    out_path = args[args.index("--out") + 1]
+    start, restarts = 0, 0
+    while True:
+        rc, out = sh([binary] + args + ["--runs", str(runs), "--from", str(start)], cwd=ROOT, timeout=timeout)
+        if rc == 0:
+            return {"runs": runs, "restarts": restarts}
+        if rc == 124:
+            raise ToolError("harness %s timed out" % args[0])
+        last = -1
+        try:
+            with open(out_path, "rb") as f:
+                f.seek(0, 2)
+                size = f.tell()
+                f.seek(max(0, size - 20000))
+                tail = f.read().decode(errors="replace").splitlines()
+            for ln in reversed(tail):
+                if ln.startswith("{") and '"run"' in ln:
+                    last = json.loads(ln)["run"]
+                    break
+        except Exception:
+            pass
+        if last < start or restarts > 200:
+            raise ToolError("harness %s failed (%d) without progress:\n%s" % (args[0], rc, out[-2000:]))
+        start = last + 1
+        restarts += 1
+        if start >= runs:
+            return {"runs": runs, "restarts": restarts}
+
+
 def read_ndjson(path):
     with open(path) as f:
         return [json.loads(l) for l in f if l.strip()]
